@@ -8,6 +8,7 @@ import (
 	"os"
 	"sort"
 	"strings"
+	"sync/atomic"
 
 	"golang.org/x/tools/go/ssa"
 )
@@ -181,6 +182,10 @@ func (ex *Exec) ensureModel() {
 	if m == nil {
 		m = map[string]uint64{}
 	}
+	if !ex.modelSatisfies(m, nil) {
+		atomic.AddInt64(&gStats.BadModels, 1)
+		return // not a model of the path: go without one
+	}
 	ex.model = m
 }
 
@@ -344,11 +349,45 @@ func (ex *Exec) knownDisj() *Term {
 	return d
 }
 
+// modelSatisfies evaluates the path condition and extra under a model returned by
+// the solver (missing variables read as 0, as in the replay file). A model that
+// does not satisfy them is a solver artefact, not a counterexample.
+func (ex *Exec) modelSatisfies(m map[string]uint64, extra *Term) (ok bool) {
+	defer func() {
+		if recover() != nil {
+			ok = true // a term the evaluator cannot fold: nothing to say
+		}
+	}()
+	te := newTermEval(m)
+	for _, c := range ex.pc {
+		if te.eval(c) != 1 {
+			return false
+		}
+	}
+	if extra != nil && te.eval(extra) != 1 {
+		return false
+	}
+	return true
+}
+
 func (ex *Exec) modelFor(extra *Term) (SatResult, map[string]uint64) {
 	r, m, err := ex.sess.Check(extra, true, ex.ts.vars)
 	if err != nil {
 		ex.res.Inconclusive = append(ex.res.Inconclusive, err.Error())
 		return Unknown, nil
+	}
+	if r == Sat && m != nil && !ex.modelSatisfies(m, extra) {
+		// re-decide in a fresh solver process from the path's own log
+		atomic.AddInt64(&gStats.BadModels, 1)
+		r, m, err = ex.sess.CheckFresh(extra, ex.ts.vars)
+		if err != nil {
+			ex.res.Inconclusive = append(ex.res.Inconclusive, err.Error())
+			return Unknown, nil
+		}
+		if r == Sat && m != nil && !ex.modelSatisfies(m, extra) {
+			ex.res.Inconclusive = append(ex.res.Inconclusive, "solver returned a model that does not satisfy the query, twice")
+			return Unknown, nil
+		}
 	}
 	if r == Sat {
 		if m == nil {
